@@ -1,3 +1,7 @@
+// Package gen synthesises Grits programs: GEN (type-directed, closed,
+// terminating, well typed by construction as far as the harness understands the
+// adjoint SAX rules - the real typechecker is the gate), plus mutants, renamings
+// and junk in the other files of this package.
 package gen
 
 import (
@@ -11,23 +15,41 @@ type vr struct {
 	t *Ty
 }
 
+// G is the state of one program synthesis. Every decision is a call to intn.
 type G struct {
-	tUnit, tNat, tSrv *Ty
-	intn              func(int) int
-	scopes            []int
-	lin               bool
-	n                 int
-	prog              *Program
-	mk                map[string]string
-	labels            []string
-	sigs              []*Def
-	// collide: reuse binder names aggressively (exercise name coincidences)
+	intn    func(int) int
+	base    string // mode of ordinary processes and types ("" = unannotated, i.e. replicable)
+	hi      string // "" or a mode strictly above base: closed "value" types live there and meet base through shifts
+	scopes  []int
+	n       int
+	prog    *Program
+	mk      map[string]string
+	labels  []string
+	sigs    []*Def
 	collide bool
+	named   map[string]*Ty // shared KNamed nodes by name
+	inprog  map[string]bool
 }
+
+// Options steer the generator profile.
+type Options struct {
+	// Collide: binder names restart in every definition (y1, y2, ...), so a
+	// caller's variable can be spelled like a callee's binder.
+	Collide bool
+	// MainStructured: the unconsumed root `main` gets a structured positive
+	// type instead of 1 (more parked senders at synchronous quiescence).
+	MainStructured bool
+	// NegativeRoots: unconsumed roots may contain negative components (servers
+	// nobody calls); C02 then compares with the reference semantics' live set.
+	NegativeRoots bool
+}
+
+func canDrop(m string) bool  { return m == "" || m == "rep" || m == "aff" }
+func canSplit(m string) bool { return m == "" || m == "rep" || m == "mul" }
 
 func (g *G) fresh(p string) string {
 	g.n++
-	if g.collide && (p == "y" || p == "z" || p == "k" || p == "x" || p == "v" || p == "f" || p == "c" || p == "e" || p == "t" || p == "n") {
+	if g.collide && len(p) == 1 {
 		// binder names are only unique within one definition: y1, y2, ... restart in every definition
 		g.scopes[len(g.scopes)-1]++
 		return fmt.Sprintf("y%d", g.scopes[len(g.scopes)-1])
@@ -38,31 +60,85 @@ func (g *G) fresh(p string) string {
 func (g *G) push() { g.scopes = append(g.scopes, 0) }
 func (g *G) pop()  { g.scopes = g.scopes[:len(g.scopes)-1] }
 
-func (g *G) randTy(d int) *Ty {
-	c := g.intn(8)
+func (g *G) unit(m string) *Ty { return &Ty{K: KUnit, M: m} }
+
+func (g *G) name(n string) *Ty { return g.named[n] }
+
+func (g *G) nat(m string) *Ty {
+	if m == g.hi && g.hi != "" {
+		return g.name("natH")
+	}
+	return g.name("nat")
+}
+
+var brLabels = []string{"a", "b", "c"}
+
+func (g *G) branches(d int, m string) []Br {
+	n := 2
+	if g.intn(4) == 1 {
+		n = 3
+	}
+	var bs []Br
+	for i := 0; i < n; i++ {
+		bs = append(bs, Br{brLabels[i], g.randTy(d, m)})
+	}
+	return bs
+}
+
+// randTy draws a type living at mode m.
+func (g *G) randTy(d int, m string) *Ty {
+	if m == g.hi && g.hi != "" {
+		// value types of the upper mode: positive data, external choices over such data, and
+		// up-shifts from the base mode (only closed makers provide them)
+		c := g.intn(7)
+		if d <= 0 {
+			c = g.intn(2)
+		}
+		switch c {
+		case 0:
+			return g.unit(m)
+		case 1:
+			return g.nat(m)
+		case 2:
+			return &Ty{K: KTimes, M: m, L: g.randTy(d-1, m), R: g.randTy(d-1, m)}
+		case 3:
+			return &Ty{K: KPlus, M: m, Brs: g.branches(d-1, m)}
+		case 4:
+			return &Ty{K: KWith, M: m, Brs: g.branches(d-1, m)}
+		default:
+			return &Ty{K: KUp, M: m, From: g.base, L: g.randTy(d-1, g.base)}
+		}
+	}
+	c := g.intn(9)
 	if d <= 0 {
 		c = g.intn(3)
 	}
 	switch c {
 	case 0:
-		return g.tUnit
+		return g.unit(m)
 	case 1:
-		return g.tNat
+		return g.nat(m)
 	case 2:
 		if g.intn(2) == 0 {
-			return g.tSrv
+			return g.name("srv")
 		}
-		return g.tUnit
+		return g.unit(m)
 	case 3:
-		return &Ty{K: KTimes, L: g.randTy(d - 1), R: g.randTy(d - 1)}
+		return &Ty{K: KTimes, M: m, L: g.randTy(d-1, m), R: g.randTy(d-1, m)}
 	case 4:
-		return &Ty{K: KLolli, L: g.randTy(d - 1), R: g.randTy(d - 1)}
+		return &Ty{K: KLolli, M: m, L: g.randTy(d-1, m), R: g.randTy(d-1, m)}
 	case 5:
-		return &Ty{K: KPlus, Brs: []Br{{"a", g.randTy(d - 1)}, {"b", g.randTy(d - 1)}}}
+		return &Ty{K: KPlus, M: m, Brs: g.branches(d-1, m)}
 	case 6:
-		return &Ty{K: KWith, Brs: []Br{{"a", g.randTy(d - 1)}, {"b", g.randTy(d - 1)}}}
+		return &Ty{K: KWith, M: m, Brs: g.branches(d-1, m)}
+	case 7:
+		if g.hi != "" {
+			// down-shift: a value of the upper mode offered at the base mode
+			return &Ty{K: KDown, M: m, From: g.hi, L: g.randTy(d-1, g.hi)}
+		}
+		return g.unit(m)
 	default:
-		return g.tUnit
+		return g.unit(m)
 	}
 }
 
@@ -77,26 +153,48 @@ func (g *G) pr(k Term) Term {
 
 func (g *G) unf(t *Ty) *Ty { return g.prog.TEnv.Unf(t) }
 
+func key(t *Ty) string { return t.Text() }
+
 func (g *G) maker(t *Ty) string {
-	key := t.String()
-	if f, ok := g.mk[key]; ok {
+	k := key(t)
+	if f, ok := g.mk[k]; ok {
 		return f
 	}
 	f := g.fresh("mk")
+	// the maker is registered only after its body exists: a body that asked for "the maker
+	// of its own type" would otherwise be a recursive, possibly non-terminating definition
+	g.inprog[k] = true
 	g.push()
 	body := g.canon(t)
 	g.pop()
-	g.mk[key] = f
+	delete(g.inprog, k)
+	g.mk[k] = f
 	g.prog.Defs = append(g.prog.Defs, &Def{Name: f, Res: t, Body: body})
 	return f
+}
+
+// valueTy draws a type for a freshly made value; types whose maker is being generated right
+// now are avoided (that would recurse in the generator).
+func (g *G) valueTy(m string) *Ty {
+	for i := 0; i < 6; i++ {
+		t := g.randTy(2, m)
+		if !g.inprog[key(t)] {
+			return t
+		}
+	}
+	return g.unit(m)
 }
 
 func (g *G) newCall(x string, t *Ty, f string, args []string, k Term) Term {
 	return &New{X: x, XT: t, Body: &Call{F: f, Args: args}, K: k}
 }
 
+func isNat(t *Ty) bool { return t.K == KNamed && (t.Name == "nat" || t.Name == "natH") }
+
+// canon builds a closed canonical provider of t (no context).
 func (g *G) canon(t *Ty) Term {
 	u := g.unf(t)
+	m := u.M
 	switch u.K {
 	case KUnit:
 		return g.pr(&Close{})
@@ -104,13 +202,14 @@ func (g *G) canon(t *Ty) Term {
 		y, z := g.fresh("y"), g.fresh("z")
 		return g.pr(g.newCall(y, u.L, g.maker(u.L), nil, g.newCall(z, u.R, g.maker(u.R), nil, &Send{"self", y, z})))
 	case KPlus:
-		if t.K == KNamed && t.Name == "nat" {
+		if isNat(t) {
 			n := g.intn(4)
+			un := g.unit(m)
 			if n == 0 {
 				y := g.fresh("y")
-				return g.pr(g.newCall(y, g.tUnit, g.maker(g.tUnit), nil, &Sel{"self", "z", y}))
+				return g.pr(g.newCall(y, un, g.maker(un), nil, &Sel{"self", "z", y}))
 			}
-			// build numeral n: zero then n-1 succ cuts then final succ
+			// numeral n: zero, then n-1 successor cuts, then the final successor
 			cur := g.fresh("t")
 			zc := g.fresh("n")
 			var build func(i int, prev string) Term
@@ -119,9 +218,9 @@ func (g *G) canon(t *Ty) Term {
 					return &Sel{"self", "s", prev}
 				}
 				nc := g.fresh("n")
-				return &New{X: nc, XT: g.tNat, Ann: true, Body: &Sel{"self", "s", prev}, K: build(i+1, nc)}
+				return &New{X: nc, XT: t, Ann: true, Body: &Sel{"self", "s", prev}, K: build(i+1, nc)}
 			}
-			return g.pr(g.newCall(cur, g.tUnit, g.maker(g.tUnit), nil, &New{X: zc, XT: g.tNat, Ann: true, Body: &Sel{"self", "z", cur}, K: build(0, zc)}))
+			return g.pr(g.newCall(cur, un, g.maker(un), nil, &New{X: zc, XT: t, Ann: true, Body: &Sel{"self", "z", cur}, K: build(0, zc)}))
 		}
 		b := u.Brs[g.intn(len(u.Brs))]
 		y := g.fresh("y")
@@ -136,9 +235,23 @@ func (g *G) canon(t *Ty) Term {
 		var bs []Branch
 		for _, b := range u.Brs {
 			z := g.fresh("z")
-			bs = append(bs, Branch{b.L, z, b.T, g.gen(nil, b.T, 1)})
+			var k Term
+			if m == g.hi && g.hi != "" {
+				k = g.canon(b.T)
+			} else {
+				k = g.gen(nil, b.T, 1)
+			}
+			bs = append(bs, Branch{b.L, z, b.T, k})
 		}
 		return g.pr(&Case{From: "self", Brs: bs})
+	case KDown:
+		// positive: cast self<v> with v a value of the upper mode
+		v := g.fresh("v")
+		return g.pr(g.newCall(v, u.L, g.maker(u.L), nil, &Cast{To: "self", Cont: v}))
+	case KUp:
+		// negative: wait for the client to shift down, then provide at the lower mode
+		x := g.fresh("z")
+		return g.pr(&Shift{X: x, From: "self", XT: u.L, K: g.gen(nil, u.L, 1)})
 	}
 	panic("canon")
 }
@@ -149,30 +262,33 @@ func (g *G) srvFunc() string {
 	}
 	f := g.fresh("server")
 	g.mk["$srv"] = f
+	srv := g.name("srv")
 	body := &Case{From: "self", Brs: []Branch{
-		{"next", "z", g.tSrv, &Print{g.label(), &Call{F: f, Args: []string{"z"}}}},
-		{"stop", "z", g.tUnit, &Print{g.label(), &Close{}}},
+		{"next", "z", srv, &Print{g.label(), &Call{F: f, Args: []string{"z"}}}},
+		{"stop", "z", g.unit(g.base), &Print{g.label(), &Close{}}},
 	}}
-	g.prog.Defs = append(g.prog.Defs, &Def{Name: f, Res: g.tSrv, Body: body})
+	g.prog.Defs = append(g.prog.Defs, &Def{Name: f, Res: srv, Body: body})
 	return f
 }
 
-func (g *G) eatFunc() string {
-	if f, ok := g.mk["$eat"]; ok {
+func (g *G) eatFunc(nat *Ty) string {
+	k := "$eat" + nat.Name
+	if f, ok := g.mk[k]; ok {
 		return f
 	}
 	f := g.fresh("eat")
-	g.mk["$eat"] = f
+	g.mk[k] = f
 	body := &Case{From: "x", Brs: []Branch{
-		{"z", "y", g.tUnit, &Print{g.label(), &Wait{"y", &Close{}}}},
-		{"s", "y", g.tNat, &Print{g.label(), &Call{F: f, Args: []string{"y"}}}},
+		{"z", "y", g.unit(nat.M), &Print{g.label(), &Wait{"y", &Close{}}}},
+		{"s", "y", nat, &Print{g.label(), &Call{F: f, Args: []string{"y"}}}},
 	}}
-	g.prog.Defs = append(g.prog.Defs, &Def{Name: f, Params: []Param{{"x", g.tNat}}, Res: g.tUnit, Body: body})
+	g.prog.Defs = append(g.prog.Defs, &Def{Name: f, Params: []Param{{"x", nat}}, Res: g.unit(g.base), Body: body})
 	return f
 }
 
+// consume uses x up completely in a base-mode process, then continues with k().
 func (g *G) consume(x vr, k func() Term) Term {
-	if !g.lin && g.intn(3) == 0 {
+	if canDrop(x.t.M) && g.intn(3) == 1 {
 		return g.pr(&Drop{X: x.n, T: x.t, K: k()})
 	}
 	u := g.unf(x.t)
@@ -183,9 +299,9 @@ func (g *G) consume(x vr, k func() Term) Term {
 		y, z := g.fresh("y"), g.fresh("z")
 		return g.pr(&Recv{X: y, Y: z, From: x.n, XT: u.L, YT: u.R, K: g.consume(vr{y, u.L}, func() Term { return g.consume(vr{z, u.R}, k) })})
 	case KPlus:
-		if x.t.K == KNamed && x.t.Name == "nat" {
+		if isNat(x.t) {
 			e := g.fresh("e")
-			return g.pr(g.newCall(e, g.tUnit, g.eatFunc(), []string{x.n}, &Wait{e, k()}))
+			return g.pr(g.newCall(e, g.unit(g.base), g.eatFunc(x.t), []string{x.n}, &Wait{e, k()}))
 		}
 		var bs []Branch
 		for _, b := range u.Brs {
@@ -203,6 +319,12 @@ func (g *G) consume(x vr, k func() Term) Term {
 		}
 		kk := g.fresh("k")
 		return g.pr(&New{X: kk, XT: b.T, Ann: true, Body: &Sel{x.n, b.L, "self"}, K: g.consume(vr{kk, b.T}, k)})
+	case KDown:
+		y := g.fresh("y")
+		return g.pr(&Shift{X: y, From: x.n, XT: u.L, K: g.consume(vr{y, u.L}, k)})
+	case KUp:
+		kk := g.fresh("k")
+		return g.pr(&New{X: kk, XT: u.L, Ann: true, Body: &Cast{To: x.n, Cont: "self"}, K: g.consume(vr{kk, u.L}, k)})
 	}
 	panic("consume")
 }
@@ -215,6 +337,7 @@ func with(ctx []vr, vs ...vr) []vr {
 	return append(append([]vr{}, ctx...), vs...)
 }
 
+// gen synthesises a base-mode process providing a from the context ctx.
 func (g *G) gen(ctx []vr, a *Ty, fuel int) Term {
 	if fuel <= 0 || g.intn(6) == 0 {
 		return g.pr(g.finish(ctx, a))
@@ -253,30 +376,84 @@ func (g *G) gen(ctx []vr, a *Ty, fuel int) Term {
 				kk := g.fresh("k")
 				return &New{X: kk, XT: b.T, Ann: true, Body: &Sel{x.n, b.L, "self"}, K: g.gen(with(rest, vr{kk, b.T}), a, fuel-1)}
 			})
+		case KDown:
+			acts = append(acts, func() Term {
+				y := g.fresh("y")
+				return &Shift{X: y, From: x.n, XT: u.L, K: g.gen(with(rest, vr{y, u.L}), a, fuel-1)}
+			})
+		case KUp:
+			acts = append(acts, func() Term {
+				kk := g.fresh("k")
+				return &New{X: kk, XT: u.L, Ann: true, Body: &Cast{To: x.n, Cont: "self"}, K: g.gen(with(rest, vr{kk, u.L}), a, fuel-1)}
+			})
 		}
-		if !g.lin {
+		if canSplit(x.t.M) {
 			acts = append(acts, func() Term {
 				x1, x2 := g.fresh("x"), g.fresh("x")
 				return &Split{X1: x1, X2: x2, From: x.n, T: x.t, K: g.gen(with(rest, vr{x1, x.t}, vr{x2, x.t}), a, fuel-1)}
 			})
+		}
+		if canDrop(x.t.M) {
 			acts = append(acts, func() Term { return &Drop{X: x.n, T: x.t, K: g.gen(rest, a, fuel-1)} })
 		}
 		acts = append(acts, func() Term {
 			y := g.fresh("f")
 			return &New{X: y, XT: x.t, Ann: true, Body: &Fwd{From: x.n, T: x.t}, K: g.gen(with(rest, vr{y, x.t}), a, fuel-1)}
 		})
+		// calls of earlier definitions whose first parameter has x's type; further parameters are
+		// taken from the context when a variable of the right type is there, else freshly made
 		for _, s := range g.sigs {
 			s := s
-			if len(s.Params) == 1 && s.Params[0].T.String() == x.t.String() {
+			if len(s.Params) >= 1 && key(s.Params[0].T) == key(x.t) {
 				acts = append(acts, func() Term {
+					cur := rest
+					args := []string{x.n}
+					var pre []func(Term) Term
+					for _, q := range s.Params[1:] {
+						found := -1
+						for j, v := range cur {
+							if key(v.t) == key(q.T) {
+								found = j
+								break
+							}
+						}
+						if found >= 0 {
+							args = append(args, cur[found].n)
+							cur = without(cur, found)
+						} else {
+							v := g.fresh("v")
+							qt := q.T
+							args = append(args, v)
+							pre = append(pre, func(k Term) Term { return g.newCall(v, qt, g.maker(qt), nil, k) })
+						}
+					}
+					if g.intn(3) == 1 {
+						// permute the last two arguments' *positions in the context* is not allowed (types
+						// decide positions); instead vary which equal-typed variable goes where
+						for a1 := 1; a1 < len(args); a1++ {
+							for a2 := a1 + 1; a2 < len(args); a2++ {
+								if key(s.Params[a1].T) == key(s.Params[a2].T) && g.intn(2) == 1 {
+									args[a1], args[a2] = args[a2], args[a1]
+								}
+							}
+						}
+					}
 					y := g.fresh("c")
-					return g.newCall(y, s.Res, s.Name, []string{x.n}, g.gen(with(rest, vr{y, s.Res}), a, fuel-1))
+					var t Term = g.newCall(y, s.Res, s.Name, args, g.gen(with(cur, vr{y, s.Res}), a, fuel-1))
+					for j := len(pre) - 1; j >= 0; j-- {
+						t = pre[j](t)
+					}
+					return t
 				})
 			}
 		}
 	}
 	acts = append(acts, func() Term {
-		t := g.randTy(2)
+		m := g.base
+		if g.hi != "" && g.intn(3) == 1 {
+			m = g.hi
+		}
+		t := g.valueTy(m)
 		y := g.fresh("v")
 		return g.newCall(y, t, g.maker(t), nil, g.gen(with(ctx, vr{y, t}), a, fuel-1))
 	})
@@ -303,8 +480,44 @@ func (g *G) gen(ctx []vr, a *Ty, fuel int) Term {
 }
 
 func (g *G) finish(ctx []vr, a *Ty) Term {
-	if len(ctx) == 1 && ctx[0].t.String() == a.String() && g.intn(2) == 0 {
+	if len(ctx) == 1 && key(ctx[0].t) == key(a) && g.intn(2) == 0 {
 		return &Fwd{From: ctx[0].n, T: a}
+	}
+	// a down-shift can be provided directly from a context that is exactly its content
+	if u := g.unf(a); u.K == KDown && len(ctx) == 1 && key(ctx[0].t) == key(u.L) {
+		return &Cast{To: "self", Cont: ctx[0].n}
+	}
+	// tail call of a definition whose parameters are exactly the context and whose result is a
+	if len(ctx) >= 1 && g.intn(2) == 1 {
+		for _, s := range g.sigs {
+			if key(s.Res) != key(a) || len(s.Params) != len(ctx) {
+				continue
+			}
+			used := make([]bool, len(ctx))
+			var args []string
+			ok := true
+			for _, q := range s.Params {
+				f := -1
+				for j, v := range ctx {
+					if !used[j] && key(v.t) == key(q.T) {
+						f = j
+						break
+					}
+				}
+				if f < 0 {
+					ok = false
+					break
+				}
+				used[f] = true
+				args = append(args, ctx[f].n)
+			}
+			if ok {
+				if g.intn(3) == 1 {
+					args = append([]string{"self"}, args...) // explicit provider argument
+				}
+				return &Call{F: s.Name, Args: args}
+			}
+		}
 	}
 	var k func(i int) Term
 	k = func(i int) Term {
@@ -316,87 +529,14 @@ func (g *G) finish(ctx []vr, a *Ty) Term {
 	return k(0)
 }
 
-// Options steer the generator profile.
-type Options struct {
-	// Collide: binder names restart in every definition (y1, y2, ...), so a
-	// caller's variable can be spelled like a callee's binder.
-	Collide bool
-	// MainStructured: the unconsumed root `main` gets a structured positive
-	// type instead of 1 (more parked senders at synchronous quiescence).
-	MainStructured bool
-}
-
-// Generate builds a closed program from the choice function intn(n) in [0,n).
-func Generate(intn func(int) int, opt Options) *Program {
-	g := &G{intn: intn, collide: opt.Collide, mk: map[string]string{}, labels: []string{"p", "q", "u", "v", "w"}}
-	g.tUnit = &Ty{K: KUnit}
-	g.tNat = &Ty{K: KNamed, Name: "nat"}
-	g.tSrv = &Ty{K: KNamed, Name: "srv"}
-	g.push()
-	g.lin = g.intn(4) == 0
-	p := &Program{TEnv: TyEnv{}}
-	g.prog = p
-	mode := ""
-	if g.lin {
-		mode = "lin"
-	} else if g.intn(3) == 0 {
-		mode = "rep"
-	}
-	natT := &Ty{K: KPlus, Brs: []Br{{"z", g.tUnit}, {"s", g.tNat}}}
-	srvT := &Ty{K: KWith, Brs: []Br{{"next", g.tSrv}, {"stop", g.tUnit}}}
-	p.TEnv["nat"], p.TEnv["srv"] = natT, srvT
-	p.Types = append(p.Types, TypeDef{"nat", natT}, TypeDef{"srv", srvT})
-	nf := g.intn(3)
-	for i := 0; i < nf; i++ {
-		pt, rt := g.randTy(1), g.randTy(1)
-		name := g.fresh("fn")
-		g.push()
-		body := g.gen([]vr{{"x", pt}}, rt, 2+g.intn(3))
-		g.pop()
-		d := &Def{Name: name, Params: []Param{{"x", pt}}, Res: rt, Body: body}
-		p.Defs = append(p.Defs, d)
-		g.sigs = append(g.sigs, d)
-	}
-	var tops []vr
-	nt := g.intn(3)
-	for i := 0; i < nt; i++ {
-		t := g.randTy(2)
-		if g.intn(5) == 0 && !g.lin {
-			a, b := g.fresh("top"), g.fresh("top")
-			g.push()
-			p.Procs = append(p.Procs, &Proc{Names: []string{a, b}, T: t, Body: g.gen(nil, t, 2)})
-			g.pop()
-			tops = append(tops, vr{a, t}, vr{b, t})
-		} else {
-			a := g.fresh("top")
-			g.push()
-			p.Procs = append(p.Procs, &Proc{Names: []string{a}, T: t, Body: g.gen(nil, t, 2)})
-			g.pop()
-			tops = append(tops, vr{a, t})
-		}
-	}
-	mainT := g.tUnit
-	if opt.MainStructured {
-		for {
-			mainT = g.randTy(2)
-			if g.hereditarilyPositive(mainT, 0) {
-				break
-			}
-		}
-	}
-	p.Procs = append(p.Procs, &Proc{Names: []string{"main"}, T: mainT, Body: g.gen(tops, mainT, 4+g.intn(5))})
-	setModes(p, mode)
-	return p
-}
-
-// hereditarilyPositive: 1, *, + over such types, and nat (C02's domain for
-// unconsumed roots: nothing inside an unconsumed value waits to receive).
+// hereditarilyPositive: 1, *, +, down-shifts over such types, and nat (C02's
+// domain for unconsumed roots: nothing inside an unconsumed value waits to receive).
 func (g *G) hereditarilyPositive(t *Ty, d int) bool {
 	if d > 8 {
 		return true
 	}
 	if t.K == KNamed {
-		return t.Name == "nat"
+		return isNat(t)
 	}
 	switch t.K {
 	case KUnit:
@@ -410,71 +550,169 @@ func (g *G) hereditarilyPositive(t *Ty, d int) bool {
 			}
 		}
 		return true
+	case KDown:
+		return g.hereditarilyPositive(t.L, d+1)
 	}
 	return false
 }
 
-// setModes stamps the program's single mode on every type node.
-func setModes(p *Program, mode string) {
-	seen := map[*Ty]bool{}
-	var walk func(t *Ty)
-	walk = func(t *Ty) {
-		if t == nil || seen[t] {
-			return
-		}
-		seen[t] = true
-		t.M = mode
-		walk(t.L)
-		walk(t.R)
-		for _, b := range t.Brs {
-			walk(b.T)
-		}
+var modePairs = [][2]string{{"lin", "rep"}, {"lin", "aff"}, {"lin", "mul"}, {"aff", "rep"}, {"mul", "rep"}}
+
+// Generate builds a closed program from the choice function intn(n) in [0,n).
+func Generate(intn func(int) int, opt Options) *Program {
+	g := &G{intn: intn, collide: opt.Collide, mk: map[string]string{}, labels: []string{"p", "q", "u", "v", "w"}, named: map[string]*Ty{}, inprog: map[string]bool{}}
+	g.push()
+	p := &Program{TEnv: TyEnv{}}
+	g.prog = p
+	switch g.intn(8) {
+	case 0:
+		g.base = "lin"
+	case 1, 2, 3:
+		g.base = ""
+	case 4:
+		g.base = "rep"
+	case 5:
+		g.base = []string{"aff", "mul"}[g.intn(2)]
+	default:
+		mp := modePairs[g.intn(len(modePairs))]
+		g.base, g.hi = mp[0], mp[1]
 	}
-	var term func(t Term)
-	term = func(t Term) {
-		switch x := t.(type) {
-		case *Recv:
-			walk(x.XT)
-			walk(x.YT)
-			term(x.K)
-		case *Case:
-			for _, b := range x.Brs {
-				walk(b.PT)
-				term(b.K)
+	def := func(name string, body *Ty) {
+		g.named[name] = &Ty{K: KNamed, Name: name, M: body.M}
+		p.TEnv[name] = body
+		p.Types = append(p.Types, TypeDef{name, body})
+	}
+	g.named["nat"] = &Ty{K: KNamed, Name: "nat", M: g.base}
+	g.named["srv"] = &Ty{K: KNamed, Name: "srv", M: g.base}
+	def("nat", &Ty{K: KPlus, M: g.base, Brs: []Br{{"z", g.unit(g.base)}, {"s", g.named["nat"]}}})
+	def("srv", &Ty{K: KWith, M: g.base, Brs: []Br{{"next", g.named["srv"]}, {"stop", g.unit(g.base)}}})
+	if g.hi != "" {
+		g.named["natH"] = &Ty{K: KNamed, Name: "natH", M: g.hi}
+		def("natH", &Ty{K: KPlus, M: g.hi, Brs: []Br{{"z", g.unit(g.hi)}, {"s", g.named["natH"]}}})
+	}
+	nf := g.intn(3)
+	for i := 0; i < nf; i++ {
+		np := 1
+		if g.intn(3) == 1 {
+			np = 2 + g.intn(2)
+		}
+		var params []Param
+		var ctx []vr
+		names := []string{"x", "w", "r"}
+		for j := 0; j < np; j++ {
+			m := g.base
+			if g.hi != "" && g.intn(4) == 1 {
+				m = g.hi
 			}
-		case *New:
-			walk(x.XT)
-			term(x.Body)
-			term(x.K)
-		case *Wait:
-			term(x.K)
-		case *Fwd:
-			walk(x.T)
-		case *Split:
-			walk(x.T)
-			term(x.K)
-		case *Drop:
-			walk(x.T)
-			term(x.K)
-		case *Print:
-			term(x.K)
-		case *Shift:
-			walk(x.XT)
-			term(x.K)
+			var t *Ty
+			if j > 0 && g.intn(2) == 1 {
+				t = params[0].T // equal types make argument order observable only through behaviour
+			} else {
+				t = g.randTy(1, m)
+			}
+			params = append(params, Param{names[j], t})
+			ctx = append(ctx, vr{names[j], t})
+		}
+		rt := g.randTy(1, g.base)
+		name := g.fresh("fn")
+		g.push()
+		body := g.gen(ctx, rt, 2+g.intn(3))
+		g.pop()
+		d := &Def{Name: name, Params: params, Res: rt, Body: body}
+		if g.intn(6) == 1 {
+			d.Prov = "me" // explicit provider name instead of self
+			d.Body = substSelf(d.Body, "me")
+		}
+		p.Defs = append(p.Defs, d)
+		g.sigs = append(g.sigs, d)
+	}
+	var tops []vr
+	nt := g.intn(3)
+	for i := 0; i < nt; i++ {
+		t := g.randTy(2, g.base)
+		if g.intn(5) == 0 && canSplit(g.base) {
+			a, b := g.fresh("top"), g.fresh("top")
+			g.push()
+			p.Procs = append(p.Procs, &Proc{Names: []string{a, b}, T: t, Body: g.gen(nil, t, 2)})
+			g.pop()
+			tops = append(tops, vr{a, t}, vr{b, t})
+		} else {
+			a := g.fresh("top")
+			g.push()
+			p.Procs = append(p.Procs, &Proc{Names: []string{a}, T: t, Body: g.gen(nil, t, 2)})
+			g.pop()
+			tops = append(tops, vr{a, t})
 		}
 	}
-	for _, t := range p.Types {
-		walk(t.T)
-	}
-	for _, d := range p.Defs {
-		for _, q := range d.Params {
-			walk(q.T)
+	mainT := g.unit(g.base)
+	if opt.MainStructured {
+		for {
+			mainT = g.randTy(2, g.base)
+			if g.hereditarilyPositive(mainT, 0) || (opt.NegativeRoots && g.prog.TEnv.Positive(mainT)) {
+				break
+			}
 		}
-		walk(d.Res)
-		term(d.Body)
 	}
-	for _, q := range p.Procs {
-		walk(q.T)
-		term(q.Body)
+	p.Procs = append(p.Procs, &Proc{Names: []string{"main"}, T: mainT, Body: g.gen(tops, mainT, 4+g.intn(5))})
+	// now and then an extra unconsumed root started with `exec f()`
+	if g.intn(6) == 1 {
+		t := g.unit(g.base)
+		if opt.MainStructured {
+			t = g.nat(g.base)
+		}
+		f := g.maker(t)
+		p.Procs = append(p.Procs, &Proc{Names: []string{"exec1"}, T: t, Exec: f, Body: &Call{F: f}})
 	}
+	return p
+}
+
+// substSelf spells the provider with an explicit name (function definitions of
+// the form `let f[me : T, ...] = body`).
+func substSelf(t Term, w string) Term {
+	s := func(n string) string {
+		if n == "self" {
+			return w
+		}
+		return n
+	}
+	switch x := t.(type) {
+	case *Send:
+		return &Send{s(x.To), s(x.Payload), s(x.Cont)}
+	case *Recv:
+		return &Recv{x.X, x.Y, s(x.From), x.XT, x.YT, substSelf(x.K, w)}
+	case *Sel:
+		return &Sel{s(x.To), x.Label, s(x.Cont)}
+	case *Case:
+		n := &Case{From: s(x.From)}
+		for _, b := range x.Brs {
+			n.Brs = append(n.Brs, Branch{b.Label, b.Payload, b.PT, substSelf(b.K, w)})
+		}
+		return n
+	case *New:
+		// inside the body of a cut `self` is the new process: leave it alone
+		return &New{x.X, x.XT, x.Ann, x.Body, substSelf(x.K, w)}
+	case *Call:
+		n := &Call{F: x.F}
+		for _, a := range x.Args {
+			n.Args = append(n.Args, s(a))
+		}
+		return n
+	case *Close:
+		return &Close{X: w}
+	case *Wait:
+		return &Wait{x.X, substSelf(x.K, w)}
+	case *Fwd:
+		return &Fwd{To: w, From: x.From, T: x.T}
+	case *Split:
+		return &Split{x.X1, x.X2, x.From, x.T, substSelf(x.K, w)}
+	case *Drop:
+		return &Drop{x.X, x.T, substSelf(x.K, w)}
+	case *Print:
+		return &Print{x.L, substSelf(x.K, w)}
+	case *Cast:
+		return &Cast{s(x.To), s(x.Cont)}
+	case *Shift:
+		return &Shift{x.X, s(x.From), x.XT, substSelf(x.K, w)}
+	}
+	return t
 }
